@@ -935,6 +935,13 @@ fn make_var_heavy(r: &mut Rng, p: &mut Prog, d: &J) {
             1 => kq.parts.push(Part::Key("zz_in".into())),
             2 => kq.parts.push(Part::Star),
             3 => kq.parts.push(Part::AllIdx),
+            4 => {
+                // a filter whose clause errs on some element types (`empty` on a number)
+                if r.chance(1, 2) {
+                    kq.parts.push(Part::Star);
+                }
+                kq.parts.push(Part::Filter { cap: None, lines: vec![Line { alts: vec![Clause::Cmp(Cmp { not: false, q: Query { some: false, parts: vec![Part::This] }, op: Op::Empty, opnot: r.chance(1, 2), rhs: None, msg: None })] }] });
+            }
             _ => {}
         }
         // a value to compare with: the document's own value for that key (when it is a scalar
